@@ -187,6 +187,12 @@ func c07Run(c *rt.C, src map[string]string, id string, wantAccept bool, class st
 			c.Violate("lintfile-panic/"+fn, fmt.Sprintf("LintFile(%s) panicked (%s %s): %v", n, class, id, pv), d)
 			continue
 		}
+		if ews != nil && wantAccept && strings.HasSuffix(n, ".j5s") {
+			// `j5 j5s lint` fails whenever the linter reports anything, warnings included
+			d := det()
+			d["diagnostics"] = rt.Clip(ews.Error(), 1500)
+			c.Violate("lint-not-clean/LintFile/"+errSig(ews), fmt.Sprintf("a package within the documented language does not pass the linter (%s, file %s): %s", id, n, rt.Clip(ews.Error(), 300)), d)
+		}
 		if ews != nil {
 			c.Event("lintfile_diagnostics")
 			c07Positions(c, ews, src, "LintFile", class)
@@ -213,6 +219,11 @@ func c07Run(c *rt.C, src map[string]string, id string, wantAccept bool, class st
 			d["stack"] = st
 			c.Violate("lintall-panic/"+fn, fmt.Sprintf("LintAll panicked (%s %s): %v", class, id, pv), d)
 		} else if ews != nil {
+			if wantAccept {
+				d := det()
+				d["diagnostics"] = rt.Clip(ews.Error(), 1500)
+				c.Violate("lint-not-clean/LintAll/"+errSig(ews), fmt.Sprintf("a package within the documented language does not pass the linter (%s): %s", id, rt.Clip(ews.Error(), 300)), d)
+			}
 			c.Event("lintall_diagnostics")
 			c07Positions(c, ews, src, "LintAll", class)
 		} else if lerr != nil {
